@@ -40,6 +40,21 @@ def peer_end(obs, task, inc=None):
     return None
 
 
+def c_data_in_flight(case, obs, cinc, crash_time):
+    """Known-finding class WriterBlockedFullWindow (residual after fix df5434b): the records client task C
+    wrote right after its connect (logged at sim time tc, i.e. in step floor(tc/tick)) are stamped with the
+    end of that step and become deliverable `lat` later; they have reached the server iff a step that
+    delivers them was completed before the crash. True = still in flight (or C not connected at all)."""
+    tick = case["cfg"]["tick_ms"] * MS
+    lat = case["cfg"]["lat_ms"] * MS
+    conn = [e for e in obs["log"] if e[0] == 1 and e[1] == cinc and e[2] == "C" and e[3] == "connect" and e[4] == "ok"]
+    if not conn or conn[0][7] is None:
+        return True
+    k = conn[0][7] // tick
+    delivered_by = (k + -(-lat // tick) + 1) * tick
+    return crash_time < delivered_by
+
+
 def fault_events(case, obs):
     """[(event index, name, victims, before, after)] of the executed crash/bounce events."""
     out = []
@@ -155,7 +170,8 @@ def compare(case, obs, model, probes):
                     want.setdefault(PEER_TASK[m[2]], []).append("fin" if m[0] == 1 else "rst")
             for task, kinds in want.items():
                 e = peer_end(obs, task, cinc)
-                if e is None and task == "C" and case["cfg"].get("tcp_capacity", 64) < 3:
+                if (e is None and task == "C" and case["cfg"].get("tcp_capacity", 64) < 3
+                        and c_data_in_flight(case, obs, cinc, before["elapsed"])):
                     continue      # known finding WriterBlockedFullWindow (what fix df5434b left of it): data in flight at the crash
                 if e is None:
                     return "event %d (%s n0): model sends %s for the stream of client task %s, the task never saw its stream end" % (k, name, kinds, task)
